@@ -56,13 +56,45 @@ class Explored:
         return self.paths[path]["ops"]
 
 
-def explore(progs, wd, depth=4, max_paths=40, seed=7, fuel=20000, prelude=None, obs=None, name="base",
-            flavour="debug", turns=False):
-    """runs the explore mode of inkdrive; returns list of Explored (one per usable program) and counts"""
+def random_walks(progs, wd, walks, seed, fuel, prelude, name, flavour):
+    """deep choice paths found by random walks (one run each, the choice index taken modulo the number on offer)"""
+    import random as _r
     scs = []
     for i, p in enumerate(progs):
+        for w in range(walks["n"]):
+            rnd = _r.Random("%s/%s/%d/%d" % (walks.get("seed", 0), p.get("id"), i, w))
+            script = [{"op": "new"}] + list(prelude(p) if callable(prelude) else (prelude or [])) + [{"op": "turn"}]
+            for _ in range(walks["depth"]):
+                script += [{"op": "choose", "i": rnd.randrange(1 << 20), "mod": True}, {"op": "turn"}]
+            scs.append({"case": [i, w], "programs": [prog_spec(p)], "seed": seed, "fuel": fuel,
+                        "obs": {"save": False, "vars": False, "visits": False}, "script": script})
+    recs = lib.run_inkdrive(scs, wd, name=name + "-walk", flavour=flavour, timeout=1800)
+    out = {}
+    for key, rs in lib.by_case(recs).items():
+        i, w = json.loads(key)
+        path = []
+        for r in rs:
+            if r.get("op") == "choose":
+                if r.get("res") != "ok" or "chosen" not in r:
+                    break
+                path.append(r["chosen"])
+        if path:
+            out.setdefault(i, [])
+            if path not in out[i]:
+                out[i].append(path)
+    return out
+
+
+def explore(progs, wd, depth=4, max_paths=40, seed=7, fuel=20000, prelude=None, obs=None, name="base",
+            flavour="debug", turns=False, walks=None):
+    """runs the explore mode of inkdrive; returns list of Explored (one per usable program) and counts.
+    walks=dict(n, depth, seed): additionally n random deep paths per program"""
+    scs = []
+    extra = random_walks(progs, wd, walks, seed, fuel, prelude, name, flavour) if walks else {}
+    for i, p in enumerate(progs):
         sc = {"case": i, "programs": [prog_spec(p)], "seed": seed, "fuel": fuel,
-              "explore": {"depth": depth, "max_paths": max_paths, "prelude": prelude(p) if callable(prelude) else (prelude or [])}}
+              "explore": {"depth": depth, "max_paths": max_paths, "prelude": prelude(p) if callable(prelude) else (prelude or []),
+                          "extra_paths": extra.get(i, [])}}
         if obs:
             sc["obs"] = obs
         scs.append(sc)
@@ -82,9 +114,26 @@ def explore(progs, wd, depth=4, max_paths=40, seed=7, fuel=20000, prelude=None, 
             counts["compile_errors"] += 1
             continue
         cur = {}
+        walk_recs = {}
         for r in rs:
             if r.get("n", 0) > 0:
-                cur.setdefault(tuple(r["path"]), []).append(r)
+                if isinstance(r["path"], dict):
+                    walk_recs.setdefault(tuple(r["path"]["walk"]), []).append(r)
+                else:
+                    cur.setdefault(tuple(r["path"]), []).append(r)
+        for full, wrecs in walk_recs.items():
+            # a deep path is emitted whole: its records are filed under the prefix they extend (as the breadth-first
+            # exploration files them: the choice and the turn after it belong to the path that ends with that choice)
+            nch, split = 0, {}
+            for r in wrecs:
+                if r.get("op") == "choose":
+                    nch += 1
+                split.setdefault(tuple(full[:nch]), []).append(r)
+            for pref, rr in split.items():
+                if pref not in cur:
+                    for r in rr:
+                        r["path"] = list(pref)
+                    cur[pref] = rr
         bad = False
         for path in sorted(cur, key=lambda t: (len(t), t)):
             new = relational.collapse_turns(cur[path]) if turns else cur[path]
@@ -141,7 +190,14 @@ def fingerprint(m):
     op = (rec.get("opfull") or {}).get("op", "")
     if (m.get("info") or {}).get("fp"):
         # the finding is identified by its specific input (e.g. a corpus story), not by the kind of call
-        return ("%s/%s/%s" % (m["info"]["fp"], m["rule"], m.get("comp") or "-")).replace(" ", "_")
+        # ... and by WHAT differs there (expected and actual value of the component), so that another difference in the
+        # same story is a different finding
+        fp = "%s/%s/%s" % (m["info"]["fp"], m["rule"], m.get("comp") or "-")
+        ex = m.get("explain") or {}
+        if "expected" in ex or "actual" in ex:
+            rec_val = (m.get("record") or {}).get("val") if (m.get("comp") in ("can", "err")) else None
+            fp += "/" + lib.sha([ex.get("expected"), ex.get("actual"), rec_val])[:8]
+        return fp.replace(" ", "_")
     fp = "%s/%s" % (m["rule"], op)
     pan = rec.get("panic")
     if pan:
